@@ -45,7 +45,7 @@ class Namespace:
         self._end_category()
 
     def _end_media_keywords(self):
-        for term in self.pop("media_keywords").split(","):
+        for term in (self.pop("media_keywords") or "").split(","):
             if term.strip():
                 self._add_tag(term.strip(), None, None)
 
@@ -68,8 +68,8 @@ class Namespace:
 
     def _end_media_rating(self):
         rating = self.pop("rating")
-        if rating is not None and rating.strip():
-            context = self._get_context()
+        context = self._get_context()
+        if rating is not None and rating.strip() and "media_rating" in context:
             context["media_rating"]["content"] = rating
 
     def _start_media_credit(self, attrs_d):
@@ -80,8 +80,8 @@ class Namespace:
 
     def _end_media_credit(self):
         credit = self.pop("credit")
-        if credit is not None and credit.strip():
-            context = self._get_context()
+        context = self._get_context()
+        if credit is not None and credit.strip() and context.get("media_credit"):
             context["media_credit"][-1]["content"] = credit
 
     def _start_media_description(self, attrs_d):
@@ -97,8 +97,12 @@ class Namespace:
 
     def _end_media_restriction(self):
         restriction = self.pop("restriction")
-        if restriction is not None and restriction.strip():
-            context = self._get_context()
+        context = self._get_context()
+        if (
+            restriction is not None
+            and restriction.strip()
+            and "media_restriction" in context
+        ):
             context["media_restriction"]["content"] = [
                 cc.strip().lower() for cc in restriction.split(" ")
             ]
@@ -110,8 +114,8 @@ class Namespace:
 
     def _end_media_license(self):
         license_ = self.pop("license")
-        if license_ is not None and license_.strip():
-            context = self._get_context()
+        context = self._get_context()
+        if license_ is not None and license_.strip() and "media_license" in context:
             context["media_license"]["content"] = license_
 
     def _start_media_content(self, attrs_d):
@@ -128,7 +132,7 @@ class Namespace:
     def _end_media_thumbnail(self):
         url = self.pop("url")
         context = self._get_context()
-        if url is not None and url.strip():
+        if url is not None and url.strip() and context.get("media_thumbnail"):
             if "url" not in context["media_thumbnail"][-1]:
                 context["media_thumbnail"][-1]["url"] = url
 
@@ -139,4 +143,5 @@ class Namespace:
     def _end_media_player(self):
         value = self.pop("media_player")
         context = self._get_context()
-        context["media_player"]["content"] = value
+        if "media_player" in context:
+            context["media_player"]["content"] = value
